@@ -23,14 +23,31 @@ def _norm(enc):
 
 
 def _ext8(e):
+    if z3.is_bv_value(e):
+        return bvv(e.as_long() & 0xFF)
     return z3.Extract(7, 0, e)
 
 
 def _zx(e, w=WS):
+    if z3.is_bv_value(e):
+        return bvv(e.as_long(), w)
     return z3.ZeroExt(w - e.size(), e)
 
 
+def _simp(seq):
+    seq.elems = [e if z3.is_bv_value(e) or z3.is_const(e) else z3.simplify(e) for e in seq.elems]
+    return seq
+
+
 def encode(s: SSeq, encoding="utf-8", errors="strict") -> SSeq:
+    return _simp(_encode(s, encoding, errors))
+
+
+def decode(b: SSeq, encoding="utf-8", errors="strict") -> SSeq:
+    return _simp(_decode(b, encoding, errors))
+
+
+def _encode(s: SSeq, encoding="utf-8", errors="strict") -> SSeq:
     enc = _norm(encoding)
     es = s.celems()
     c = ctx()
@@ -87,7 +104,7 @@ def _between(e, lo, hi):
     return z3.And(z3.UGE(e, lo), z3.ULE(e, hi))
 
 
-def decode(b: SSeq, encoding="utf-8", errors="strict") -> SSeq:
+def _decode(b: SSeq, encoding="utf-8", errors="strict") -> SSeq:
     enc = _norm(encoding)
     es = b.celems()
     n = len(es)
